@@ -59,3 +59,16 @@ Theorem C06_vcurve_shift : forall (y w : list R) (c : R) llas,
   end.
 Proof. intros y w c llas Hl Hn Wn W2. exact (optv_core_shift y w c Hl Hn Wn W2 llas). Qed.
 Print Assumptions C06_vcurve_shift.
+
+(** and it commutes with reversing time: same lambda, reversed curve *)
+Theorem C06_vcurve_rev : forall (y w : list R) llas,
+  length w = length y -> (4 <= length y)%nat ->
+  (forall i, (0 <= i < Z.of_nat (length y))%Z -> 0 <= Wk w i) ->
+  (exists p q, (0 <= p < q)%Z /\ (q < Z.of_nat (length y))%Z /\ 0 < Wk w p /\ 0 < Wk w q) ->
+  optv_core OpsR (rev y) (rev w) llas =
+  match optv_core OpsR y w llas with
+  | VFit z lopt => VFit (rev z) lopt
+  | r => r
+  end.
+Proof. intros y w llas Hl Hn Wn W2. exact (optv_core_rev y w Hl Hn Wn W2 llas). Qed.
+Print Assumptions C06_vcurve_rev.
